@@ -12,7 +12,7 @@ import collections, concurrent.futures, json, os, re, shutil, subprocess, time
 import vlib
 
 SPEC_FILES = ("Geometry.tla", "Trace_Geometry.tla", "Trace_Geometry.cfg")
-PAR = 6          # concurrent single-worker TLC judges
+PAR = {"quick": 6, "thorough": 8}          # concurrent single-worker TLC judges
 
 
 def run(ctx):
@@ -31,21 +31,28 @@ def run(ctx):
     os.environ.setdefault("JAVA_TOOL_OPTIONS", "-XX:ParallelGCThreads=4 -Xss64m")
 
     # 1. design level: the oracle's own theorems for every layout of the enumerated space; write/read state machine
-    ctx.tlc_mc("MC_Geometry", "MC_Geometry.cfg", timeout=1500)
-    ctx.tlc_mc("MC_Geometry", ctx.pick("MC_Geometry_rw_small.cfg", "MC_Geometry_rw.cfg"), timeout=2400)
-    if not ctx.quick():
+    dev_skip_mc = bool(os.environ.get("VERIF_C02_DEV_SKIP_MC"))          # development aid only (mutation runs)
+    if not dev_skip_mc:
+        ctx.tlc_mc("MC_Geometry", "MC_Geometry.cfg", timeout=1500)
+        ctx.tlc_mc("MC_Geometry", ctx.pick("MC_Geometry_rw_small.cfg", "MC_Geometry_rw.cfg"), timeout=2400)
+    if not ctx.quick() and not dev_skip_mc:
         ctx.tlc_mc("MC_Geometry", "MC_Geometry_long.cfg", timeout=2400)
         ctx.tlc_mc("MC_Geometry", "MC_Geometry_big.cfg", timeout=3600)
 
     # 2. implementation -> specification
     drv = ctx.build_go("c02")
     files = []
-    if ctx.quick():
+    if os.environ.get("VERIF_C02_DEV_SKIP_BYTE"):        # development aid only (seed-independent part skipped)
+        pass
+    elif ctx.quick():
         files += drive(ctx, drv, ["-mode", "byte", "-space", "3,4,5", "-all", "-out", ctx.path("bq")], chunk=1500)
         files += drive(ctx, drv, ["-mode", "byte", "-space", "4,6,7", "-sample", "2500", "-seed", str(ctx.seed),
                                   "-out", ctx.path("bs")], chunk=1300)
     else:
         files += drive(ctx, drv, ["-mode", "byte", "-space", "4,6,7", "-all", "-out", ctx.path("ba")], chunk=6000, timeout=3000)
+        # beyond the exhaustive space: seeded sample of longer layouts (<=5 files, lengths 0..8, piece length 1..9)
+        files += drive(ctx, drv, ["-mode", "byte", "-space", "5,8,9", "-sample", "2000", "-seed", str(ctx.seed),
+                                  "-out", ctx.path("bl")], chunk=500)
     files += drive(ctx, drv, ["-mode", "scaled", "-space", "4,6,7", "-sample", str(ctx.pick(240, 4000)),
                               "-seed", str(ctx.seed), "-out", ctx.path("sc")], chunk=ctx.pick(120, 500))
     rtdir = ctx.path("rt", "x")
@@ -89,11 +96,12 @@ def binding_file(ctx, files):
     """Corrupt one recorded field at a time in a real line; the trace spec must reject each with the right tag."""
     base = None
     for f in files:
-        for line in open(f):
+        for lineno, line in enumerate(open(f), 1):
             e = json.loads(line)
             if (e.get("op") == "L" and e.get("mode") == "byte" and e.get("acc") == 1 and e.get("np", 0) >= 2
                     and len(e["files"]) >= 2 and all(x[1] == 0 for x in e["files"]) and e["blk"][0][0]):
                 base = line
+                ctx._c02_base = (f, lineno)
                 break
         if base:
             break
@@ -144,7 +152,7 @@ def tlc_judge(ctx, k, path):
 def judge_all(ctx, files):
     t0 = time.time()
     results = []
-    with concurrent.futures.ThreadPoolExecutor(max_workers=PAR) as ex:
+    with concurrent.futures.ThreadPoolExecutor(max_workers=PAR[ctx.tier]) as ex:
         futs = [ex.submit(tlc_judge, ctx, k, p) for k, p in enumerate(files)]
         for f in futs:
             results.append(f.result())
@@ -163,10 +171,14 @@ def judge_all(ctx, files):
             e = json.loads(line)
             v = verdicts.get(n, [])
             if binding:
+                # the corrupted copy must be rejected with the expected tag and with nothing else that the
+                # uncorrupted line (which may itself violate something when the code is broken) is not rejected for
                 tags = set(x[0] for x in v)
-                if tags != {e["expect"]}:
-                    raise vlib.MachineryError("binding self-check: corrupted field expected to be rejected as %s, TLC said %s"
-                                              % (e["expect"], sorted(tags)))
+                bpath, bline = ctx._c02_base
+                base_tags = set(x[0] for r in results if r[0] == bpath for x in r[1].get(bline, []))
+                if e["expect"] not in tags or not (tags - {e["expect"]}) <= base_tags:
+                    raise vlib.MachineryError("binding self-check: corrupted field expected to be rejected as %s, TLC said %s "
+                                              "(uncorrupted line: %s)" % (e["expect"], sorted(tags), sorted(base_tags)))
                 stats["binding_rejections"] += 1
                 continue
             account(ctx, e, stats, allpad)
